@@ -34,7 +34,8 @@ def make(o):
                        relative_epsilon=o.get("sk_rel", True),
                        second_moment_decay=o.get("decay", 1.0),
                        update_freq=o.get("SF", 1), ekfac_svd=o.get("ekfac", False),
-                       add_ggt=o.get("add_ggt", False)) if so == "sketchy" else None
+                       add_ggt=o.get("add_ggt", False),
+                       memory_alloc=o.get("memory_alloc", None)) if so == "sketchy" else None
   soo = second_order.Options(
       merge_dims=o.get("merge_dims", 1024),
       second_order_type=(second_order.SecondOrderType.SKETCHY if so == "sketchy"
